@@ -300,6 +300,8 @@ func (ex *Exec) runInitOne(st *State, initFn *ssa.Function, path string) {
 	st.frames = nil
 	st.done = false
 	ex.pushFrame(st, FuncV{Fn: initFn}, nil, nil)
+	ex.lenient = true
+	defer func() { ex.lenient = false }()
 	nwork := len(ex.work)
 	for !st.done {
 		ex.stepSafe(st)
@@ -323,6 +325,31 @@ func (ex *Exec) stepSafe(st *State) {
 		if r := recover(); r != nil {
 			if _, ok := r.(retryStep); ok {
 				return
+			}
+			if ex.lenient {
+				// package initialisers: an instruction the executor cannot perform yields an opaque value
+				if _, isEnd := r.(endPath); !isEnd && len(st.frames) > 0 {
+					f := st.top()
+					if f.mode == 0 && f.pc < len(f.block.Instrs) {
+						ins := f.block.Instrs[f.pc]
+						switch ins.(type) {
+						case *ssa.If, *ssa.Jump, *ssa.Return, *ssa.Panic:
+						default:
+							why := fmt.Sprint(r)
+							if c, ok := r.(cutPath); ok {
+								why = c.why
+							}
+							if ex.cfg.Verbose > 0 {
+								fmt.Fprintf(os.Stderr, "gosym: init: %s: %s -> opaque (%s)\n", f.fn, ins, why)
+							}
+							if v, ok := ins.(ssa.Value); ok {
+								f.env[v] = Opaque{Why: "init: " + why}
+							}
+							f.pc++
+							return
+						}
+					}
+				}
 			}
 			panic(r)
 		}
